@@ -28,7 +28,9 @@ TRUSTED = ["lexing of the text into tokens and that parsimonious implements the 
            "the parser of the @print value format (a/b, true/false, Python string repr, {..}) in this module"]
 ASSUMPTIONS = ["powers with non-integer exponents and min/max over two or more sets are 'unspecified' in the model: only "
                "'value or InvalidDefinitionError' is required of the implementation there",
-               "exponent magnitudes and power nesting are bounded by the generator (cost guard)"]
+               "exponent magnitudes and power nesting are bounded by the generator (cost guard); generated values stay below "
+               "10**4300 because CPython refuses to convert larger integers to text (open finding F21 of C13: @print of such a "
+               "value ends in InternalError although the value itself is computed exactly)"]
 EXPLANATION = ("theorems quantify over all expression trees; the correspondence compares values delivered through five channels "
                "on generated trees and checks, inside Coq, that the text fed is the model's rendering of the tree")
 LEVEL_TEXT = ("Machine-checked theorems (Coq, closed under the global context): the operator dispatch of pydsdl (per-class methods, "
@@ -522,6 +524,9 @@ def targeted():
     for base in (L("int", "0"), two, ["un", "-", two], ["bin", "/", two, three], ["un", "-", ["bin", "/", two, three]], L("real", "0.0")):
         for ex in (L("int", "0"), one, three, L("int", "12"), ["un", "-", one], ["un", "-", two], ["un", "-", three], L("real", "2.0"), L("real", "0.5"), ["bin", "/", one, three]):
             out.append((["bin", "**", base, ex], ["print"]))
+    # close to CPython's int -> str limit (F21): still printable
+    out.append((["bin", "**", L("int", "10"), L("int", "4299")], ["print"]))
+    out.append((["bin", ">", ["bin", "**", L("int", "10"), L("int", "5000")], one], ["assert"]))
     # F4 corner cases (InvalidDefinitionError since the repair)
     out.append((["bin", "**", ["un", "-", L("int", "8")], ["bin", "/", one, three]], ["print"]))
     out.append((["bin", "**", ["bin", "**", L("int", "10"), L("int", "400")], L("real", "0.5")], ["print"]))
